@@ -138,6 +138,7 @@ impl<'a> GetTransactionsProofProcess<'a> {
             .reply_proof::<packed::SendTransactionsProofV1>(
                 self.peer,
                 self.nc,
+                &snapshot,
                 &last_block,
                 positions,
                 proved_items,
